@@ -1,6 +1,6 @@
 #!/bin/sh
 # usage: lib/seedtest.sh <Cxx> <patch.diff> [tier]   — applies a seeded change to a scratch worktree of /repo and runs the check on it
-id="$1"; patch="$2"; tier="${3:-quick}"
+id="$1"; patch=$(readlink -f "$2"); tier="${3:-quick}"
 wt=$(mktemp -d /tmp/seedrun-XXXXXX)
 rmdir "$wt"
 git -C /repo worktree add -q --detach "$wt" HEAD || exit 2
